@@ -381,6 +381,12 @@ Definition load_dets (defs : list (str * ddef)) (c : cval) : outcome dets :=
     end)
   end.
 
+(* from_dict as the PROCEDURE Python runs: the document is passed by reference, the callee returns the
+   object and leaves behind whatever it did to the caller's dict.  The model: the dict is left as it was.
+   The correspondence observes the argument after the call as part of the implementation's output. *)
+Definition from_dict_proc (arg : list (str * ddef) * cval) : outcome dets * (list (str * ddef) * cval) :=
+  (load_dets (fst arg) (snd arg), arg).
+
 Definition dets_plain (r : dets) : outcome (list (str * ddef) * cval) :=
   obind (mapM (fun nd => obind (det_plain (snd nd)) (fun d => Ok (fst nd, d))) (ds_dets r)) (fun ds =>
   Ok (ds, match ds_cond r with [c] => COne c | l => CMany l end)).
